@@ -50,6 +50,8 @@ func init() {
 				// the count is over set members: they are the characters only if every member is one character
 				checkAlphabetProvenance(p, r, "R2.1")
 			})
+			// … and a class flag stands for its documented characters (= C16 R16.1 class-table rules)
+			borrowSelected(p, r, runC16, "R7.7", func(o core.Obligation) bool { return o.Rule == "R16.1" && strings.HasPrefix(o.Construct, "class ") })
 		},
 	})
 }
@@ -253,7 +255,7 @@ func checkCountWiring(p *core.Program, r *core.Report, f *ssa.Function) (*ssa.Fu
 					}
 				}
 			}
-			if ok && ri.Kind == "slice" && recvOK(ri.X, ".requiredSets") {
+			if ok && ri.Kind == "slice" && recvOK(ri.X, "."+requiredSetsField(p)) {
 				// the added set is the set field of the element at the range index (possibly through a local copy)
 				root, path, okP := valueAccessPath(rAdds[0])
 				if okP && len(path) == 1 {
